@@ -8,7 +8,6 @@
 package main
 
 import (
-	"path/filepath"
 	"bytes"
 	"context"
 	"crypto/tls"
@@ -17,6 +16,7 @@ import (
 	"io"
 	"log"
 	"os"
+	"path/filepath"
 	"strings"
 	"time"
 
@@ -65,8 +65,8 @@ var sysCA *casim.CA
 var ips = []string{"127.0.0.1", "127.0.0.2", "127.0.0.3", "127.0.0.4"}
 
 const (
-	idCAA, idCAB, idForeign, idSystem, idClientCA, idClientForeign = 1, 2, 3, 4, 5, 6
-	nameOtherIP, nameOtherDNS                                      = 9, 20
+	idCAA, idCAB, idForeign, idSystem, idClientCA, idClientForeign, idExpiredCA = 1, 2, 3, 4, 5, 6, 7
+	nameOtherIP, nameOtherDNS                                                   = 9, 20
 )
 
 // ---- the dimensions of the matrix
@@ -123,9 +123,10 @@ type bundleKind int // 0: one file [A]; 1: two files [A],[B]; 2: one file holdin
 
 var bundleNames = []string{"one-file[A]", "two-files[A][B]", "one-file[A+B]",
 	"three-files[clientCA][A-without-final-newline][B]", "two-files[A-without-final-newline][B-without-final-newline]",
-	"one-file[A]-reached-through-a-symlinked-directory-and-dot-dot"}
+	"one-file[A]-reached-through-a-symlinked-directory-and-dot-dot",
+	"one-file[E]-whose-only-CA-certificate-has-expired", "two-files[E][E2]-both-CA-certificates-expired"}
 
-const nBundles = 6
+const nBundles = 8
 
 type srvSpec struct {
 	id   identity
@@ -389,7 +390,10 @@ func (h *harness) runCase(class string, b bundleKind, eps []int, specs []srvSpec
 		certIDs = append(certIDs, core.GN(h.keys.ID(k)))
 	}
 	bundleIDs := []string{core.GN(idCAA)}
-	if b != 0 && b != 5 {
+	if b == 6 || b == 7 {
+		// no server certificate was issued by the expired CAs: nobody is authenticated by such a bundle
+		bundleIDs = []string{core.GN(idExpiredCA)}
+	} else if b != 0 && b != 5 {
 		bundleIDs = append(bundleIDs, core.GN(idCAB))
 	}
 	if b == 3 {
@@ -447,7 +451,15 @@ func run(c *core.Ctx) {
 	_, err = casim.WriteFile(dir, "ca-x.pem", h.p.foreign.PEM)
 	must(err)
 	fsym := filepath.Join(dir, "link") + "/../ca-x.pem"
-	h.bundles = [][]string{{fa}, {fa, fb}, {fab}, {fcc, fan, fb}, {fan, fbn}, {fsym}}
+	// CA certificates that have expired (a forgotten roll-over): they authenticate nobody
+	var fexp [2]string
+	for i := range fexp {
+		e, err := casim.NewCAValid(fmt.Sprintf("expired CA %d", i+1), idExpiredCA, time.Now().Add(-800*24*time.Hour), time.Now().Add(-time.Duration(1+i*30)*24*time.Hour))
+		must(err)
+		fexp[i], err = casim.WriteFile(dir, fmt.Sprintf("ca-expired-%d.pem", i+1), e.PEM)
+		must(err)
+	}
+	h.bundles = [][]string{{fa}, {fa, fb}, {fab}, {fcc, fan, fb}, {fan, fbn}, {fsym}, {fexp[0]}, {fexp[0], fexp[1]}}
 	h.keys, err = casim.NewSSHKeys(len(ips), 0) // server at address i answers with certificate i+1
 	must(err)
 	h.farm, err = casim.NewFarm(ips)
@@ -512,6 +524,12 @@ func run(c *core.Ctx) {
 			runPattern("identity", b, srvSpec{idByA, 3, 1}, patterns[1])
 			runPattern("identity", b, srvSpec{idByB, 3, 1}, patterns[0])
 			runPattern("identity", b, srvSpec{idByForeign, 3, 1}, patterns[1])
+		}
+		for _, b := range []bundleKind{6, 7} {
+			runPattern("expired-bundle", b, srvSpec{idBySystem, 3, 1}, patterns[0])
+			runPattern("expired-bundle", b, srvSpec{idBySystem, 3, 0}, patterns[1])
+			runPattern("expired-bundle", b, srvSpec{idByA, 3, 1}, patterns[0])
+			runPattern("expired-bundle", b, srvSpec{idSelfSigned, 1, 1}, patterns[2])
 		}
 		for vr := range vranges {
 			runPattern("protocol", bundleKind(vr%nBundles), srvSpec{idByA, vr, vr % 3}, patterns[1+vr%3])
